@@ -1,14 +1,26 @@
-import TracklibVerif.Model.Simplify
+import TracklibVerif.Model.SimplifyTrack
 import TracklibVerif.Drv.Util
 /-! Driver handler for C16 (simplification), `Float` instantiation (`sqrt = Float.sqrt`, ARGMIN sentinel
-`1e300`). Floats are IEEE bit patterns. Commands:
+`+inf`, the code's `float('inf')` since 68863c7). Floats are IEEE bit patterns. Commands:
   dp <eps> <xs> <ys>            → kept indices `i,j,…` of the code's own run, then ` ` and every output
                                   reachable with another choice among equally far fixes (`;`-separated),
                                   or `err:recursion` when the recursion does not terminate
   vw <eps> <xs> <ys>            → kept indices
   dist <x0> <y0> <x1> <y1> <x2> <y2>  → distance_to_segment
   area <x0> <y0> <x1> <y1> <x2> <y2>  → triangle_area
-  distq <6 rationals>           → exact squared distance to the closed segment (`distSegSq` on `Rat`) -/
+  distq <6 rationals>           → exact squared distance to the closed segment (`distSegSq` on `Rat`)
+  trk <mode> <eps> <xs> <ys> <uid> <tid> <base|_> <names> <cols> <rows>
+                                → `simplify(track, eps, mode)` on the `Track` object (`Model/SimplifyTrack.lean`): the track has
+                                  `uid`, `tid`, `base`, the feature dict `names[i] ↦ cols[i]` and one feature row per fix
+                                  (NaN = `nan`). Reply: `<kept tags> <uid> <tid> <base|_> <names> <cols> <rows>` of the result,
+                                  or `err:<Python exception>` / `unsupported` (modes 3 … 8)
+  trkn <mode> <eps> <xs> <ys> <uid> <tid> <base|_> <names> <cols> <rows> <no_data_value|_>
+                                → `simplify` on a track that carries the attribute `no_data_value` (`simplifyN`): the reply of `trk`
+                                  followed by the result's `no_data_value` (`_` = None)
+  net <mode> <eps> <k> then k × (<xs> <ys> <uid> <tid> <base|_> <names> <cols> <rows> <no_data_value|_>)
+                                → `Network.simplify(eps, mode)` on a network whose k edges have these geometries (`netSimplify`):
+                                  the k replies of `trkn` separated by ` | `, or the first error
+  mode <int>                    → which algorithm `simplify` dispatches to -/
 namespace TV.Drv.C16
 open TV.Simplify TV.Drv
 
@@ -17,10 +29,107 @@ def mkTrack (xs ys : List Float) : List (Fix Float) :=
 
 def showIdx (l : List (Fix Float)) : String := showList (fun (p : Fix Float) => toString p.tag) l
 
-def big : Float := 1e300
+def big : Float := 1.0 / 0.0
+
+def optF (v : Float) : Option Float := if v.isNaN then none else some v
+def showOptF : Option Float → String
+  | none => "nan"
+  | some v => showFloat v
+
+def showTrk (T : Trk Float) : String :=
+  " ".intercalate [showList (fun (o : Ob Float) => toString o.fix.tag) T.pts, toString T.info.uid, toString T.info.tid,
+    (match T.info.base with | none => "_" | some b => toString b),
+    joinWith "," (T.dico.map (·.1)), showList (fun (p : String × Nat) => toString p.2) T.dico,
+    joinWith ";" (T.pts.map (fun o => showList showOptF o.feats))]
+
+def handleTrk (args : List String) : String :=
+  match args with
+  | [m, e, xs, ys, uid, tid, base, names, cols, rows] =>
+    match m.toInt?, float? e, floatList? xs, floatList? ys, uid.toNat?, tid.toNat?, natList? cols, floatListList? rows with
+    | some mode, some eps, some xs, some ys, some uid, some tid, some cols, some rows =>
+      let names := splitTok names ','
+      let base? : Option (Option Nat) := if base == "_" then some none else base.toNat?.map some
+      let rows := if rows.isEmpty then List.replicate xs.length [] else rows
+      match base? with
+      | none => "bad-request"
+      | some base =>
+        if xs.length != ys.length || rows.length != xs.length || names.length != cols.length then "bad-request" else
+        let pts : List (Ob Float) := ((mkTrack xs ys).zip rows).map (fun p => ⟨p.1, p.2.map optF⟩)
+        match simplify Float.sqrt big ⟨pts, ⟨uid, tid, base⟩, names.zip cols⟩ eps mode with
+        | .ok O => showTrk O
+        | .error "unsupported" => "unsupported"
+        | .error e => "err:" ++ e
+    | _, _, _, _, _, _, _, _ => "bad-request"
+  | _ => "bad-request"
+
+/-- a track with its attributes from nine tokens -/
+def parseTrkN (args : List String) : Option (TrkN Float) :=
+  match args with
+  | [xs, ys, uid, tid, base, names, cols, rows, nd] =>
+    match floatList? xs, floatList? ys, uid.toNat?, tid.toNat?, natList? cols, floatListList? rows with
+    | some xs, some ys, some uid, some tid, some cols, some rows =>
+      let names := splitTok names ','
+      let base? : Option (Option Nat) := if base == "_" then some none else base.toNat?.map some
+      let nd? : Option (Option Float) := if nd == "_" then some none else (float? nd).map some
+      let rows := if rows.isEmpty then List.replicate xs.length [] else rows
+      match base?, nd? with
+      | some base, some nd =>
+        if xs.length != ys.length || rows.length != xs.length || names.length != cols.length then none else
+        let pts : List (Ob Float) := ((mkTrack xs ys).zip rows).map (fun p => ⟨p.1, p.2.map optF⟩)
+        some ⟨⟨pts, ⟨uid, tid, base⟩, names.zip cols⟩, nd⟩
+      | _, _ => none
+    | _, _, _, _, _, _ => none
+  | _ => none
+
+def showTrkN (T : TrkN Float) : String :=
+  showTrk T.trk ++ " " ++ (match T.nodata with | none => "_" | some v => showFloat v)
+
+def showErr (e : String) : String := if e == "unsupported" then "unsupported" else "err:" ++ e
+
+def handleTrkN (args : List String) : String :=
+  match args with
+  | m :: e :: rest =>
+    match m.toInt?, float? e, parseTrkN rest with
+    | some mode, some eps, some T =>
+      match simplifyN Float.sqrt big T eps mode with
+      | .ok O => showTrkN O
+      | .error e => showErr e
+    | _, _, _ => "bad-request"
+  | _ => "bad-request"
+
+/-- `k` groups of nine tokens -/
+def parseGeoms : Nat → List String → Option (List (TrkN Float))
+  | 0, [] => some []
+  | 0, _ :: _ => none
+  | k + 1, args =>
+    match parseTrkN (args.take 9), parseGeoms k (args.drop 9) with
+    | some T, some r => some (T :: r)
+    | _, _ => none
+
+def handleNet (args : List String) : String :=
+  match args with
+  | m :: e :: k :: rest =>
+    match m.toInt?, float? e, k.toNat? with
+    | some mode, some eps, some k =>
+      if rest.length != 9 * k then "bad-request" else
+      match parseGeoms k rest with
+      | some G =>
+        match netSimplify Float.sqrt big G eps mode with
+        | .ok O => if O.isEmpty then "_" else " | ".intercalate (O.map showTrkN)
+        | .error e => showErr e
+      | none => "bad-request"
+    | _, _, _ => "bad-request"
+  | _ => "bad-request"
 
 def handle (cmd : String) (args : List String) : String :=
   match cmd, args with
+  | "trk", _ => handleTrk args
+  | "trkn", _ => handleTrkN args
+  | "net", _ => handleNet args
+  | "mode", [m] =>
+    match m.toInt? with
+    | some mode => toString (repr (dispatch mode))
+    | none => "bad-request"
   | "dp", [e, xs, ys] =>
     match float? e, floatList? xs, floatList? ys with
     | some eps, some xs, some ys =>
